@@ -14,6 +14,9 @@ VARIABLE pending
 \* the simulation configurations place the config key kn1 in the user namespace n1 (CfgTenant <- CfgTenantNs): publishing
 \* and removing it makes n1 a namespace "in use" - listed under its id until a user names it, and never in a snapshot
 CfgTenantNs(k) == IF k = "kn1" THEN "n1" ELSE IF k = "kn2" THEN "n2" ELSE ""
+\* ... and the persistent instance of service sn2 in the namespace n2, which no configuration uses (InstTenant <- InstTenantNs):
+\* n2 is listed because of the instance alone (NAMING mark of the service index) unless a user creates it too
+InstTenantNs(k) == IF k = "sn2:10.0.0.1:82" THEN "n2" ELSE ""
 
 Kinds == {"apply", "apply", "batch", "compact", "restart", "interrupt"}
 
